@@ -9,10 +9,34 @@ LEVEL_TEXT_COMMON = ("Bounded symbolic model checking of the real Go code: go/ss
 
 CHECKS = {
  # id: (design_ref, text, note, technique)
+ "C03": ("DESIGN.md §5 C03",
+         "One-step obligations from an arbitrary session state: a datagram of any length/content is delivered, or moves any state, only after exactly this datagram opened under this direction's key with its 16-byte header as associated data and a fresh counter, which is recorded afterwards; Write/WriteMsg chunking carries every byte once, in order, for every length 0..3*Max+1; the replay filter's inductive step is discharged here too. Concurrent writers and the confidentiality clause for handshake fields are outside this check (see DESIGN.md).",
+         "Kravatte-SANSE replaced by a recording AEAD whose Open is nondeterministic (structural reading: which key/AD/bytes gate delivery; the primitive itself is C12). Receive-step harnesses use replay=none because the stub is not realisable natively; write harnesses replay natively.",
+         "SSA symbolic execution + SMT (z3), one-step from arbitrary state, AEAD stub"),
+ "C10": ("DESIGN.md §5 C10",
+         "Every datagram of length 0..65535 with arbitrary bytes (including a live session's public id) through the server's and client's session-message handler from an arbitrary session state: no panic, returns, and no state moves unless its AEAD open succeeded. Handshake-message readers and the hidden-mode loop are not yet covered by this check (listed in DESIGN.md).",
+         "AEAD stubbed by a nondeterministic Open; panics replay natively against the real build.",
+         "SSA symbolic execution + SMT (z3), panic-freedom + non-interference, one step from arbitrary state"),
+ "C11": ("DESIGN.md §5 C11",
+         "Panic-freedom and bounded allocation for fromBytes on the muxer's full 65535-byte symbolic buffer, recvAck with every 32-bit acknowledgement from an invariant-satisfying sender with <=2 (quick) / <=3 (thorough) unacked frames, and every application decoder (exec, window size, userauth, authgrant messages, proxy responses) on symbolic streams with EOF at several positions. The muxer's receive loop as a whole and 'can still be stopped cleanly' are not covered.",
+         "Length-like bytes of multi-field messages are picked from a grid (stated per harness) so that offsets stay concrete; all other bytes symbolic. Tube reads are replaced by a finite symbolic stream.",
+         "SSA symbolic execution + SMT (z3), panic/allocation obligations on symbolic input buffers"),
  "C14": ("DESIGN.md §5 C14",
          "One-step inductive argument (arbitrary window state satisfying a stated representation invariant, one Check/Mark, invariant and Check<=>set-spec afterwards) covers histories of any length; a k<=3 (quick) / k<=4 (thorough) BMC from the zero state guards the invariant against vacuity. Counters >= 2^63 are outside the claim, as in the property.",
          "Trusted: go/ssa, the engine's interpreter, z3; the invariant is stated in harness/transport/c14_replay.go. Mark's clearing loop is unrolled completely (<= 8 iterations, unwinding checked).",
          "SSA symbolic execution + SMT (z3), inductive invariant + BMC"),
+ "C15": ("DESIGN.md §5 C15",
+         "From an arbitrary session state and for a datagram of any length/content from any source address: the stored peer address changes only on a path where the AEAD open of that datagram succeeded (hence its counter passed the replay filter), the new value is the datagram's source, and after a genuine transport packet the address equals its source; send() uses the address read under the session lock. Server and client handlers.",
+         "AEAD stubbed (recording, nondeterministic Open); replay=none. Interleavings of send with a concurrent update are outside.",
+         "SSA symbolic execution + SMT (z3), one step from arbitrary state"),
+ "C18": ("DESIGN.md §5 C18",
+         "decode(encode(v)) == v field by field, with exact consumption, for tube frames, initiate frames, flag bytes, length-prefixed strings, certificate names / id chunks / certificates, intents and grant messages, denials, proxy responses, exec requests, window sizes and userauth requests; lengths straddle every length-field boundary (255/256, 252/253, 65535/65536); decode-encode-decode for certificates. Port-forward addresses are not covered (textual host/port functions).",
+         "Multi-field messages take their length fields from stated grids; SHA3 (certificate fingerprint) replaced by fresh bytes; userauth tube I/O replaced by a byte stream (replay=none there).",
+         "SSA symbolic execution + SMT (z3), round-trip obligations with symbolic fields"),
+ "C20": ("DESIGN.md §5 C20",
+         "Glob(pattern,input) is total (unwinding bound = termination) and equals a branch-free dynamic-programming glob matcher for all patterns and inputs of length <= 5 (quick) / <= 7 (thorough) over all 256 byte values; MatchHost applies exactly the matching host blocks in order; VirtualHosts.Match returns the first match.",
+         "Longer strings are outside the claim. MatchHost/VirtualHosts use concrete pattern sets (matching / non-matching / absent) with the real Glob.",
+         "SSA symbolic execution + SMT (z3), differential against declarative matcher"),
 }
 
 NOT_APPLICABLE = {
